@@ -253,6 +253,29 @@ func (g *fgen) localVar(name string, st *state, at *ssa.BasicBlock, phiOverride 
 			}
 		}
 	}
+	// a variable that lives in a cell (escaping or address-taken local): its current
+	// value is what the cell holds, not the value a definition once gave it
+	var cell *ssa.Alloc
+	for _, b := range g.fn.Blocks {
+		if !(b == at || b.Dominates(at)) {
+			continue
+		}
+		for _, in := range b.Instrs {
+			if a, ok := in.(*ssa.Alloc); ok && a.Comment == name {
+				if _, seen := g.vals[a]; !seen {
+					continue
+				}
+				if cell == nil || cell.Block().Dominates(b) {
+					cell = a
+				}
+			}
+		}
+	}
+	if cell != nil {
+		if l := g.locOf(cell); l != nil {
+			return val{g.load(st, l), l.typ, g.sortOf(l.typ)}, true
+		}
+	}
 	// DebugRefs
 	var best ssa.Value
 	var bestAddr bool
@@ -1049,6 +1072,38 @@ func closuresWrite(a *ssa.Alloc) bool {
 	return false
 }
 
+// closureOnlyLoads: the closure made by mc uses the captured cell a only to load from it.
+func closureOnlyLoads(mc *ssa.MakeClosure, a *ssa.Alloc) bool {
+	fn, ok := mc.Fn.(*ssa.Function)
+	if !ok {
+		return false
+	}
+	for i, b := range mc.Bindings {
+		if b != ssa.Value(a) {
+			continue
+		}
+		if i >= len(fn.FreeVars) {
+			return false
+		}
+		fr := fn.FreeVars[i].Referrers()
+		if fr == nil {
+			return false
+		}
+		for _, u := range *fr {
+			switch x := u.(type) {
+			case *ssa.DebugRef:
+			case *ssa.UnOp:
+				if x.Op != token.MUL {
+					return false
+				}
+			default:
+				return false
+			}
+		}
+	}
+	return true
+}
+
 // capturedOnly: every use of the alloc is a load, a store into it, or a binding of a
 // closure whose only uses are as the callee of a call, go or defer statement.
 func capturedOnly(a *ssa.Alloc) bool {
@@ -1068,6 +1123,11 @@ func capturedOnly(a *ssa.Alloc) bool {
 				return false
 			}
 		case *ssa.MakeClosure:
+			if closureOnlyLoads(u, a) {
+				// the closure can do nothing with the variable but read it: however the
+				// closure value is used (passed on, stored), nobody else can write the cell
+				continue
+			}
 			cr := u.Referrers()
 			if cr == nil {
 				return false
